@@ -136,6 +136,7 @@ let handle = function
             let k = ref p in
             let outs = List.map (fun op ->
                 match String.split_on_char ',' op with
+                | ["s"; v] -> k := { !k with pk_salt = z_of_string v }; "S"
                 | ["e"; ctx; spec; boots; time] ->
                   (match priv_encrypt !k { s_engine_id = bytes_of_hex ctx; s_pdu = build_pdu spec } (z_of_string boots) (z_of_string time) with
                    | (k', Ok (ct, pp)) -> k := k'; "E " ^ hx ct ^ " " ^ hx pp
